@@ -171,10 +171,21 @@ def run_case(ctx, kind, rng, idx):
         Tin = mc.to_container(T, cname, rng)
         fz = Frozen(Tin, snk_arg, pops)
         try:
-            m = np.asarray(core.mfpts(Tin, sinks=snk_arg, populations=pops,
-                                      lagtime=lag), dtype=float).reshape(-1)
-            m1 = np.asarray(core.mfpts(Tin, sinks=snk_arg, populations=pops),
-                            dtype=float).reshape(-1)
+            # keyword form and the positional form in the documented order
+            # (tprob, sinks, populations, lagtime)
+            if idx % 3 == 0:
+                m = np.asarray(core.mfpts(Tin, snk_arg, pops, lag),
+                               dtype=float).reshape(-1)
+                m1 = np.asarray(core.mfpts(Tin, snk_arg, pops),
+                                dtype=float).reshape(-1)
+                ctx.count('positional_calls', 2)
+            else:
+                m = np.asarray(core.mfpts(Tin, sinks=snk_arg,
+                                          populations=pops, lagtime=lag),
+                               dtype=float).reshape(-1)
+                m1 = np.asarray(core.mfpts(Tin, sinks=snk_arg,
+                                           populations=pops),
+                                dtype=float).reshape(-1)
         except Exception as e:  # noqa
             ctx.violation('mfpts.raised[%s]' % (
                 'dense' if cname == 'ndarray' else 'sparse'),
@@ -213,8 +224,9 @@ def run_case(ctx, kind, rng, idx):
         Tin = mc.to_container(T, cname, rng)
         fz = Frozen(Tin, pops)
         try:
-            A = np.asarray(core.mfpts(Tin, populations=pops, lagtime=lag),
-                           dtype=float)
+            A = np.asarray(core.mfpts(Tin, None, pops, lag) if idx % 4 == 0
+                           else core.mfpts(Tin, populations=pops,
+                                           lagtime=lag), dtype=float)
         except Exception as e:  # noqa
             ctx.violation('mfpts.allpairs.raised[%s]' % (
                 'dense' if cname == 'ndarray' else 'sparse'),
